@@ -153,6 +153,12 @@ def run_job(job):
             C = cores[k]
             if C is None:
                 viol(func, 'oracle-union-qualifies', None, None, k=k); continue
+            if k == 0:
+                # every node set qualifies: nothing may be peeled; kn is by the code's convention the number of non-isolated nodes
+                W0 = wt_fun(kind, A)
+                nz = sum(1 for v in range(n) if sum(W0[w][v] for w in range(n)) > 0)
+                if Ml != [[float(x) for x in row] for row in A] or order or int(kn) != nz:
+                    viol(func, 'k0-identity', {'M': Ml, 'kn': int(kn), 'order': order}, {'M': A, 'kn': nz, 'order': []}, k=k)
             if k >= 1:
                 sup = 0
                 for v in range(n):
@@ -220,6 +226,10 @@ def run_job(job):
             C = cores[s]
             if C is None:
                 viol(func, 'oracle-union-qualifies', None, None, s=str(s)); continue
+            if s <= 0:
+                nz = sum(1 for v in range(n) if sum(Aq[w][v] for w in range(n)) > 0)
+                if Mq != Aq or int(sn) != nz:
+                    viol(func, 'k0-identity', {'kn': int(sn)}, {'M': 'input', 'kn': nz}, s=str(s))
             if s > 0:
                 sup = 0
                 for v in range(n):
@@ -344,7 +354,7 @@ def s_grid(Aq):
     for v in vals:
         out |= {v, v + Fr(1, 8), v - Fr(1, 8)}
     out.add(max(vals or {Fr(1)}) + 1)
-    return sorted(x for x in out if x > 0)
+    return [Fr(-1, 2), Fr(0)] + sorted(x for x in out if x > 0)
 
 
 def gen_jobs(rs, tier):
@@ -385,7 +395,7 @@ def gen_jobs(rs, tier):
         A = rand_und(rs, n, rs.choice([.3, .5, .8]), wv)
         grid = s_grid([[Fr(x) for x in r] for r in A])
         if len(grid) > 24:
-            grid = [grid[i] for i in sorted(rs.choice(len(grid), size=24, replace=False).tolist())]
+            grid = grid[:2] + [grid[i] for i in sorted((2 + rs.choice(len(grid) - 2, size=22, replace=False)).tolist())]
         jobs.append({'kind': 'wu', 'A': [[str(x) for x in r] for r in A], 'ks': [str(s) for s in grid]})
     # --- k-coreness
     for n in range(1, 6):
@@ -420,7 +430,7 @@ def main():
                       'attainable internal strength and its +-1/8 neighbours; kcoreness on the same families; non-trivial = distinct '
                       '(routine, matrix, k) in which at least one peeling round removed a node (kcore), the s-core is a proper subset '
                       '(score), some node has coreness >= 2 (kcoreness)')
-    ck.assumptions += ['k >= 1 / s > 0 for the maximality predicates (k = 0 is run and compared with the model only)',
+    ck.assumptions += ['k >= 1 / s > 0 for the maximality predicates; for k = 0 / s <= 0 the judged statement is: input returned unchanged, nothing peeled, kn = number of non-isolated nodes (theorems kcore_bu_zero, kcore_bd_zero, score_wu_nonpos)',
                        'undirected routines are judged on symmetric input; weights of score_wu are non-negative dyadic rationals so that float sums are exact',
                        'kn[0] of kcoreness_centrality_* (code convention: number of non-isolated nodes) is compared with the model but not judged']
     ok = ck.lean_gate(['BctVerif.Props.C15'], extra_modules=['BctVerif.Model.Core'])
